@@ -3,6 +3,7 @@
 # Applies <seed-dir>/patch.diff to a scratch worktree of /repo, confirms the claim
 # (suite passes, demo fails with / passes without), then runs the check(s) against it.
 set -u
+ROOT=$(cd "$(dirname "$0")/.." && pwd)
 D=$(realpath "$1"); P=$2; TIER=${3:-quick}; shift; shift; shift || true
 export GOFLAGS=-mod=mod GOPROXY=off GOSUMDB=off GOTOOLCHAIN=local
 WT=/tmp/wt/eval_$$
@@ -29,7 +30,7 @@ fi
 git checkout -q go.sum 2>/dev/null
 if git diff --quiet; then echo "PATCH-NOT-APPLIED-AT-CHECK-TIME"; exit 3; fi
 echo "patched files: $(git diff --name-only | tr '\n' ' ')"
-cd /verif
+cd "$ROOT"
 for prop in $P "$@"; do
   out=$(VERIF_REPO_DIR=$WT VERIF_SEED=${VERIF_SEED:-1} ./check $prop $TIER 2>&1); rc=$?
   echo "check $prop $TIER rc=$rc: $(echo "$out" | grep -E '^(OK|VIOLATION|INCONCLUSIVE|BUILD)' | head -2 | cut -c1-160 | tr '\n' ' ')"
